@@ -684,8 +684,16 @@ func c18SelfTest(rows []c18Row, roots []c18Root, layout []obs.Bip32Field) error 
 	if hard == nil || done == nil {
 		return fmt.Errorf("the catalogue has no two-step rows to run the self test on")
 	}
-	if r := c18RunPath(c18PathCase{"path", roots[0], *hard}, layout); len(r.Viols) != 0 || r.Inconcl != "" || r.Mismatch != "" {
-		return fmt.Errorf("self test baseline failed: %+v", r)
+	for _, base := range []*c18Row{hard, done} {
+		r := c18RunPath(c18PathCase{"path", roots[0], *base}, layout)
+		if r.Inconcl != "" || r.Mismatch != "" {
+			return fmt.Errorf("self test baseline failed: %s%s", r.Inconcl, r.Mismatch)
+		}
+		if len(r.Viols) != 0 {
+			// the library already departs on the uncorrupted rows: the regular run reports that; a corrupted prediction
+			// cannot be told apart from it, so the self test has nothing to show
+			return nil
+		}
 	}
 	// (1) corrupted prediction: the row claims that the hardened step is accepted
 	bad := *hard
